@@ -11,12 +11,12 @@ sys.path.insert(0, HERE)
 
 TECH = {
     'C01': 'MIR dominance + provenance rules (confirmed-copy, accounting, header dataflow, one matcher)',
-    'C02': 'MIR edge-dominance / provenance rules over apply + decision-DAG table (no solver)',
+    'C02': 'MIR edge-dominance / provenance rules over apply, must-pass-through of the record, plan-integrity dataflow, decision-DAG table (no solver)',
     'C03': 'held-region (wrapper) analysis, read-compare-write dominance, reply truthfulness, DD of cas_decide',
     'C04': 'plan->effect provenance, effect whitelist over the call graph, error discipline, shell-template analysis',
     'C05': 'MIR path rule: edge dominance of every Ok return + hash/write pairing + panic reachability',
-    'C06': 'effect-set emptiness over the call graph, per-arm record dataflow, format-template table',
-    'C07': 'MIR edge dominance (Archive::load guards), taint of trust_base/base, decision-DAG (no delete without base)',
+    'C06': 'effect-set emptiness over the call graph, per-arm record dataflow, symbolic evaluation of the conflict-copy name, must-pass-through of the record',
+    'C07': 'MIR edge dominance (Archive::load guards), taint of trust_base/base, decision-DAG (no delete without base), canonicalize provenance of the pair key',
     'C08': 'MIR dominance chains (stage -> sync -> rename -> record), who-may-call over the bisync call graph',
     'C09': 'MIR dominance chains for staged delivery + shell-template analysis of the push command',
     'C10': 'who-may-write + edge dominance of the commit rename on hash equality / fsync / length',
@@ -27,9 +27,9 @@ TECH = {
     'C15': 'edge dominance in build_plan, glob_match as a loop-head transition system compared with the classic matcher over all atom valuations (symbolic path enumeration, no solver), dry-run effect guard',
     'C16': 'window-invariant dataflow in the scan loops + shared AR certification of both checksum producers',
     'C17': 'abstract interpretation (polynomial residues + interval bounds) of checksum.rs MIR; no solver',
-    'C18': 'decision-DAG extraction by abstract interpretation of MIR, exhaustive over consistent valuations',
+    'C18': 'decision-DAG extraction by abstract interpretation of MIR, exhaustive over consistent valuations; dataflow + must-pass-through over reconcile (loop or iterator chain)',
     'C19': 'edge dominance in build_plan, DD of needs_transfer, glob_match transition system vs the classic matcher (symbolic path enumeration over MIR, exhaustive over atom valuations), listing writer/reader table',
-    'C20': 'codec table agreement (encode/decode/from_u8), validate-before-allocate dominance, panic reachability',
+    'C20': 'codec table agreement (encode/decode/from_u8), validate-before-allocate dominance (all bodies), panic reachability with interval discharge',
 }
 ENGINE = {p: 'copia-static' for p in TECH}
 
